@@ -60,9 +60,12 @@ def run(ctx):
             problems.append(("quant:lossless-claim:equal-population-bins", "2 distinct bigram probabilities, 2 bins, yet the quantised trie is lossy",
                              {"arpa": "corpus/C03/f5_q.arpa", "opts": ["probbits=1", "backoffbits=8"]}))
     for mi in range(nmodels):
-        m = lc.gen_model(rng, max_order=ctx.pick(5, 6), max_vocab=ctx.pick(8, 40))
+        big = (mi % 6 == 2)
+        m = lc.gen_model(rng, max_order=ctx.pick(5, 6), max_vocab=ctx.pick(8, 40), big=big)
         sess = lc.Session(ctx, m, "m%d" % mi)
-        qs = lc.gen_queries(rng, m, ctx.pick(30, 120))
+        qs = lc.gen_queries(rng, m, ctx.pick(30, 120)) + (lc.ngram_queries(m) if big else [])
+        if big:
+            stats["big_models"] = stats.get("big_models", 0) + 1
         base = {"arpa": m.arpa_bytes().decode("latin-1"), "vocab": m.vocab_bytes().decode("latin-1"), "queries": qs[:50]}
         closed = m.suffix_closed()
         ref = {}          # reference transcripts
